@@ -193,8 +193,8 @@ def check_property(pid, tier, jobs, seed=0, meta=None, verbose=False, budget_s=N
         if r.unconfirmed:
             inconclusive.append("%s: %d sat obligations whose witness did not reproduce on the real code (site %s)" % (
                 j.name, len(r.unconfirmed), r.unconfirmed[0]['site']))
-        if r.complete and r.paths > 0 and r.obligations == 0 and not r.unsupported and not r.exc_paths:
-            unreached.append(j.name)
+        if r.complete and r.paths > 0 and r.obligations == 0 and not r.unsupported:
+            unreached.append(j.name + (" (every path ended in an exception: %s)" % r.exc_msgs[:1] if r.exc_paths else ""))
         for v in r.violations:
             k = match_known(v, known)
             if k is not None:
